@@ -513,7 +513,12 @@ fn gen_hist(r: &mut Rng, stats: &mut Stats, thorough: bool) -> Hist {
     let mut sleeps = 0;
     for i in 0..nsteps {
         let client = if flavour == 0 { heavy } else if r.chance(1, 2) { [127, 0, 1, 5] } else { *r.pick(&clients) };
-        let name = if r.chance(3, 5) { focus.clone() } else { r.pick(&names).clone() };
+        // flavour 1 (the one that sleeps between look-ups) keeps asking the same question from the
+        // same allowed client, and its upstream answers carry short TTLs: ageing and expiry of one
+        // entry, whatever the rcode
+        let steady = flavour == 1 && r.chance(4, 5);
+        let client = if steady { [127, 0, 1, 5] } else { client };
+        let name = if steady || r.chance(3, 5) { focus.clone() } else { r.pick(&names).clone() };
         let tcp = r.chance(1, 6) && flavour != 0;
         let cookie = match r.below(8) {
             0 => Some(r.bytes(8)),
@@ -537,17 +542,17 @@ fn gen_hist(r: &mut Rng, stats: &mut Stats, thorough: bool) -> Hist {
             _ => None,
         };
         let edns = if r.chance(2, 3) || cookie.is_some() {
-            Some((*r.pick(&[512u16, 0, 1232, 4096, 700]), r.chance(1, 8), r.chance(1, 5), cookie))
+            Some((*r.pick(&[512u16, 0, 1232, 4096, 700]), !steady && r.chance(1, 8), r.chance(1, 5), cookie))
         } else {
             None
         };
         let q = QSpec {
             id: r.next() as u16,
-            rd: !r.chance(1, 8),
-            cd: r.chance(1, 10),
+            rd: steady || !r.chance(1, 8),
+            cd: !steady && r.chance(1, 10),
             name,
-            qtype: if r.chance(1, 12) { 255 } else { *r.pick(&[1u16, 1, 1, 1, 1, 28, 16]) },
-            qclass: if r.chance(1, 15) { 3 } else { 1 },
+            qtype: if steady { 1 } else if r.chance(1, 12) { 255 } else { *r.pick(&[1u16, 1, 1, 1, 1, 28, 16]) },
+            qclass: if !steady && r.chance(1, 15) { 3 } else { 1 },
             edns,
         };
         let script = match r.below(14) {
@@ -555,7 +560,7 @@ fn gen_hist(r: &mut Rng, stats: &mut Stats, thorough: bool) -> Hist {
             1 if thorough && r.chance(1, 6) => Script::Silent,
             2 => Script::Reply { a: vec![], n: vec![], d: vec![], rdlen: 4, tc: false, wrong_id: false, rcode: *r.pick(RCODES) },
             _ => {
-                let ttl = |r: &mut Rng| *r.pick(&[1u32, 1, 2, 3, 7, 8, 9, 30, 60, 600, 0, 86400]);
+                let ttl = |r: &mut Rng| if steady { *r.pick(&[1u32, 1, 2, 3]) } else { *r.pick(&[1u32, 1, 2, 3, 7, 8, 9, 30, 60, 600, 0, 86400]) };
                 let big = r.chance(1, 4);
                 Script::Reply {
                     a: (0..r.range(1, 3)).map(|_| ttl(r).max(1)).collect(),
